@@ -631,6 +631,44 @@ def _tok(v):
     return pyval_token(v)
 
 
+def subunit_updates(rng, T):
+    """C09 flavour: a subunit object with an update callback on a live connection; the receiver reports values right behind the
+    synchronisation reply (while the initialising thread is waking up) and shortly after initialize() has returned"""
+    spec = subunit_init(rng, T)
+    while len(spec["inits"]) != 1 or spec["device"].get("version", 1) is None or spec["device"].get("silent_after") is not None:
+        spec = subunit_init(rng, T)
+    c = next(x for x in T["classes"] if x["py"] == spec["inits"][0]["class"])
+    fs = [f for f in c["fns"] if f["get"] and f["name"] not in ("VERSION", "MODELNAME")]
+    dev = spec["device"]
+    dev["latency"] = rng.choice([0.0, 0.02])
+    dev["unsolicited"] = []
+    def reports(n):
+        f = rng.choice(fs)
+        return [f"@{c['id']}:{f['name']}={_value_for(rng, T, f)}" for _ in range(n)] if rng.random() < 0.6 else \
+               [f"@{c['id']}:{(g := rng.choice(fs))['name']}={_value_for(rng, T, g)}" for _ in range(n)]
+    behind = reports(rng.randint(0, 3))
+    dev["table"]["@SYS:VERSION=?"] = ["@SYS:VERSION=1.00/2.00"] + behind
+    nq = len(spec["inits"][0]["expect_queries"]) + 1
+    t_sync = 0.2 + 0.1 * nq + dev["latency"]
+    t = t_sync - 0.1
+    for l in reports(rng.randint(1, 5)):
+        t += rng.choice([0.0, 0.0001, 0.01, 0.1, 0.1])
+        dev["unsolicited"].append([round(t, 4), l])
+    spec["settle"] = 2.0
+    spec["pre_delay"] = 0
+    dev.pop("chunk", None)
+    if rng.random() < 0.6:
+        dev["burst"] = True           # the synchronisation reply and the reports behind it arrive in one read
+    if rng.random() < 0.4:
+        # a preempted thread may also be held back for a while (virtual time passes): the initialising thread wakes up late
+        spec["stall"] = {"prob": 0.6, "us": [500, 1500, 5000, 40000]}
+    if rng.random() < 0.6:
+        # thread switches between any two bytecodes of the notification path and of the end of initialize()
+        spec["hot"] = "_call_registered_update_callbacks|_protocol_message_received|initialize"
+        spec["hot_budget"] = rng.choice([6, 12, 30])
+    return spec
+
+
 def subunit_wire(rng, T, writes=True):
     from .props import c05
     c = rng.choice(T["classes"])
